@@ -57,9 +57,11 @@ func workerSearch(results []interface{}, ctrChanged chan<- struct{}, f func(int)
 		verifYield("worker:search:before-decrement")
 		i := atomic.AddInt64(ctr, -1)
 		verifYield("worker:search:after-decrement")
-		if i >= 0 {
-			results[i] = res
+		if i < 0 {
+			// enough results were already found: this one is dropped, and nobody waits for a notification
+			continue
 		}
+		results[i] = res
 		verifYield("worker:search:before-notify")
 		ctrChanged <- struct{}{}
 		verifYield("worker:search:after-notify")
@@ -151,6 +153,10 @@ func (p *Pool) Search(count int, f func() interface{}) []interface{} {
 		f:          func(i int) interface{} { return f() },
 		results:    results,
 	}
+	// Every stored result is announced by exactly one notification, sent after the result was written.
+	// We receive all of them (instead of polling the counter), so that no worker is left blocked on its
+	// notification and every entry of results is set when we return.
+	received := 0
 	cmdI := 0
 	for cmdI < p.workerCount {
 		verifYield("caller:before-select")
@@ -158,13 +164,13 @@ func (p *Pool) Search(count int, f func() interface{}) []interface{} {
 		case p.commands <- cmd:
 			cmdI++
 		case <-ctrChanged:
+			received++
 		}
 	}
-	verifYield("caller:before-load")
-	for atomic.LoadInt64(&ctr) > 0 {
+	for received < count {
 		verifYield("caller:before-receive")
 		<-ctrChanged
-		verifYield("caller:before-load")
+		received++
 	}
 
 	return results
@@ -182,6 +188,7 @@ func (p *Pool) Parallelize(count int, f func(int) interface{}) []interface{} {
 
 	ctr := int64(count)
 	ctrChanged := make(chan struct{})
+	received := 0
 	cmdI := 0
 	for cmdI < count {
 		cmd := command{
@@ -200,13 +207,14 @@ func (p *Pool) Parallelize(count int, f func(int) interface{}) []interface{} {
 		case p.commands <- cmd:
 			cmdI++
 		case <-ctrChanged:
+			received++
 		}
 	}
-	verifYield("caller:before-load")
-	for atomic.LoadInt64(&ctr) > 0 {
+	// Each task sends exactly one notification: receive all of them, so that no worker stays blocked.
+	for received < count {
 		verifYield("caller:before-receive")
 		<-ctrChanged
-		verifYield("caller:before-load")
+		received++
 	}
 
 	return results
